@@ -25,7 +25,9 @@ CAPS = ("and who already tests with unusual and algebraically structured inputs,
         "reports undefined behaviour), an unwritable stderr, every cargo feature combination, values solved to satisfy relations "
         "(equal halves, pool == 0 after test_timer), families of same-state siblings doing jump() / long_jump(), fork() in the middle "
         "of a history, sources whose error type is zero-sized, generators embedded with serde(flatten) / tagged / untagged enums, "
-        "twins at the same buffer index in different blocks, every probe of test_timer stuck or backward, newly added Default impls ")
+        "twins at the same buffer index in different blocks, every probe of test_timer stuck or backward, newly added Default impls, "
+        "timer readings equal to the previous output, real threads racing through the seeding code, operations that hang or kill "
+        "the process, histories whose snapshots are restored twice ")
 for f in sorted(glob.glob(f"/tmp/seed/C??-{prev}.full.txt")):
     pid = os.path.basename(f)[:3]
     s = open(f).read().replace(f"{pid}-{prev}", f"{pid}-{new}")
